@@ -216,6 +216,23 @@ def rv_case_sound():
     return st.one_of(nocache, nocache, cached)
 
 
+def store_pattern_cases():
+    """Deterministic: every ordered pair (and some triples) of sub-word / word stores into one word, at three bases
+    (bottom of data memory, somewhere in the middle, the very top word), single-cycle and five-stage, table checked
+    after every step."""
+    import itertools
+    kinds = [("sb", 0), ("sb", 1), ("sb", 2), ("sb", 3), ("sh", 0), ("sh", 2), ("sw", 0)]
+    T = 2 ** 32
+    for base in (rvprog.B, rvprog.B + 0x1234 * 4, T - 4):
+        for (o1, f1), (o2, f2) in itertools.product(kinds, kinds):
+            for mode in ("single", "five"):
+                yield {"kind": "rv", "mode": mode, "dcache": None, "max": 40, "regs": {"8": base, "1": 0x11223344, "2": 0xA5B6C7D8, "3": 0x00000000},
+                       "mem": {}, "prog": [[o1, 8, 1, f1], [o2, 8, 2, f2], ["sb", 8, 3, 1], ["sw", 8, 1, -8 if base != rvprog.B else 8]]}
+        for (o1, f1), (o2, f2), (o3, f3) in itertools.product(kinds[:4], kinds[:6], kinds[:4]):
+            yield {"kind": "rv", "mode": "single", "dcache": None, "max": 40, "regs": {"8": base, "1": 0x11223344, "2": 0xA5B6C7D8, "3": 0x7F},
+                   "mem": {}, "prog": [[o1, 8, 1, f1], [o2, 8, 2, f2], [o3, 8, 3, f3]]}
+
+
 def toy_case():
     return c06.program_case().map(lambda c: dict(c, kind="toy", max=40, via_text=False))
 
@@ -236,6 +253,7 @@ def shards(tier, seed):
         items.append({"what": "fmt", "n": 12, "lo": lo, "hi": lo + 1024})
     for lo in range(0, 65536, 8192):
         items.append({"what": "fmt", "n": 16, "lo": lo, "hi": lo + 8192})
+    items.append({"what": "stores"})
     if tier == "quick":
         items.append({"what": "fmt32", "n": 500, "seed": seed * 1000})
         for i in range(2):
@@ -256,6 +274,9 @@ def run_shard(item, stats):
     w = item["what"]
     if w == "fmt":
         core.run_cases([{"kind": "fmt", "n": item["n"], "lo": item["lo"], "hi": item["hi"]}], check, stats, km)
+    elif w == "stores":
+        core.run_cases(store_pattern_cases(), check, stats, km)
+        stats.exhaustive_parts.append("all ordered pairs (and byte triples) of sub-word/word stores into one word at 3 bases")
     elif w == "fmt32":
         core.hyp_search(fmt32_case(), check, stats, item["n"], item["seed"], km)
     elif w == "rv":
